@@ -1,5 +1,6 @@
 mod db;
 mod enc;
+mod fixed;
 mod gen;
 mod json;
 mod run;
@@ -15,7 +16,7 @@ impl Property for C04 {
     const ISOLATE: bool = false;
     fn plan(tier: Tier) -> Plan {
         match tier {
-            Tier::Quick => Plan { shards: 16, cases_per_shard: 2500, max_shrink_iters: 600 },
+            Tier::Quick => Plan { shards: 16, cases_per_shard: 5000, max_shrink_iters: 600 },
             Tier::Thorough => Plan { shards: 16, cases_per_shard: 125_000, max_shrink_iters: 2000 },
         }
     }
@@ -32,12 +33,28 @@ impl Property for C04 {
         }
         o
     }
+    fn fixed_cases(_tier: Tier) -> Vec<Case> {
+        fixed::fixed_cases()
+    }
     fn rule() -> String {
-        "TODO".to_string()
+        "proptest-generated cases over a fixed model family (entity T with a required, a nullable and a defaulted field of each of the six scalar types, field groups rotated by `layout`, optional field `late` added by a model update after two rows exist; entity Canary with three rows). A case picks the type, the field variant, the default value, 1-5 rows (value + written as parameter / literal / omitted), 1-3 filter probes (value of a row, the default, a fresh value), the literal style (minimal, JSON escapes, \\uXXXX), the float style (exponent / positional), an unrelated literal placed before the parameter, field and entity aliases, an update of another field and of the target field, before/after paging, a search term, and (1.2% of the cases plus six fixed ones) a second pass through a full service instance. Oracles: every row read back through the query language equals the value handed in (strings byte-equal, integers equal, floats bit-equal on the number text, JSON structurally, read with the harness' own JSON reader), `field = value` as parameter, literal, on an alias and after another literal returns exactly the rows of the reference list whose value equals the probe, before/after return the rows greater/smaller, search of a plain term returns the rows containing it, all other fields, the canary rows (through the language and raw), the row count and sqlite_master are unchanged, no SQLite error, no panic. Generator switch `avoid_known` (70% of the cases): shapes that hit a known deviation are avoided (see the `excluded:*` counters) so that anything reported there is new; the other 30% cover the full domain and recognise the known deviations by diagnostic predicates. Non-trivial = a value with a metacharacter / non-ASCII / boundary number / null, or a value written as literal, or a default (Def / Late variant); distinct = distinct case digest".to_string()
+    }
+    fn assumptions() -> Vec<String> {
+        vec![
+            "in-memory path: DataModel, MutationParser, MutationQuery, QueryParser, PreparedQueries and Query are driven directly on a rusqlite in-memory connection prepared by prepare_connection, exactly as GraphDatabaseService does; authorisation, signatures and the writer thread are only part of the service sample".into(),
+            "the intended meaning of a string literal is the JSON one (the three grammars accept exactly the JSON escapes)".into(),
+            "equality filter on a Json field: only soundness is required (every returned row holds a structurally equal value); the implementation compares the text SQLite extracts with the parameter text, so whether an equal value is found depends on the spelling of the parameter (counters json_filter_param_*)".into(),
+            "search: only terms made of ASCII letters and digits (>= 3 characters, not AND/OR/NOT/NEAR) are compared with a substring model; case folding of non ASCII text by the trigram tokenizer is not modelled (such rows may or may not be returned)".into(),
+            "a `= null` filter is only exercised as a literal; integers handed to a Float field are limited to |i| <= 2^53".into(),
+        ]
     }
 }
 
 fn main() {
+    if std::env::var("C04_WRITE_REPLAYS").is_ok() {
+        fixed::write_replays();
+        return;
+    }
     db::install_panic_hook();
     main_for::<C04>()
 }
